@@ -329,7 +329,11 @@ func judgeHTTP(r *vrun.Run, c httpCase, log []reqLog, waits []waitRec, status in
 		return
 	}
 	rm := c.Policy.RetryMax
-	if rm >= 1 && len(log) > rm+1 {
+	if rm >= 1 && len(log) > rm+1 && len(waits)+1 <= rm+1 {
+		// the client itself logged no more than RetryMax retries: the surplus requests were re-sent
+		// below the retry layer (net/http replays idempotent requests on a broken reused connection)
+		r.Inconclusive("http: more requests than RetryMax+1 but the client logged no surplus retry (transport-level replay suspected)")
+	} else if rm >= 1 && len(log) > rm+1 {
 		r.Violation(sig(fmt.Sprintf("enabled=%v", c.Policy.Enabled), "too-many-requests"), fmt.Sprintf("%d requests with RetryMax=%d", len(log), rm), wit(nil))
 	}
 	for i := 1; i < len(log); i++ {
@@ -340,7 +344,7 @@ func judgeHTTP(r *vrun.Run, c httpCase, log []reqLog, waits []waitRec, status in
 		case 'N':
 			r.Violation(sig("after-final-client-error", "requested-again"), fmt.Sprintf("request #%d after a 404 answer", i+1), wit(nil))
 		}
-		if log[i].AfterCancel {
+		if log[i].AfterCancel && c.Method == "DO" {
 			r.Violation(sig("context-cancelled-by-earlier-request", "requested-after-context-done"), fmt.Sprintf("request #%d although the context was cancelled during request #%d", i+1, i), wit(nil))
 		}
 	}
@@ -381,7 +385,7 @@ func judgeHTTP(r *vrun.Run, c httpCase, log []reqLog, waits []waitRec, status in
 		}
 	}
 	if !c.Policy.Enabled && len(log) > 1 {
-		r.Obs("http_disabled_policy_retried_anyway(not judged)", 1)
+		r.Obs("http_disabled_policy_retried_not_judged", 1)
 	}
 	endLetter := string(last.Step[0])
 	r.ObsSet("http_classes", fmt.Sprintf("%s/%s/enabled=%v/end=%s", c.Method, c.Policy.Kind, c.Policy.Enabled, endLetter))
@@ -476,7 +480,7 @@ func buildHTTPCases(r *vrun.Run) []httpCase {
 		k := []string{"R429", "R500", "R503"}[rng.IntN(3)]
 		return httpStep{Kind: k, Hdr: hm[rng.IntN(len(hm))]}
 	}
-	mkPolicy := func(rng interface{ IntN(int) int }, maxLinearRetry int) policyDesc {
+	mkPolicy := func(rng interface{ IntN(int) int }) policyDesc {
 		kind := kinds[rng.IntN(3)]
 		w := httpWaitMenu[kind][rng.IntN(len(httpWaitMenu[kind]))]
 		p := policyDesc{Enabled: true, RetryMax: 1 + rng.IntN(8), Kind: kind, WaitMinNs: w[0], WaitMaxNs: w[1], RetryAfterDisabled: rng.IntN(2) == 0}
@@ -516,7 +520,7 @@ func buildHTTPCases(r *vrun.Run) []httpCase {
 			for i := 0; i < len(s); i++ {
 				steps = append(steps, mkStep(s[i], rng))
 			}
-			add(httpCase{Method: "DO", Policy: mkPolicy(rng, 8), Script: steps})
+			add(httpCase{Method: "DO", Policy: mkPolicy(rng), Script: steps})
 		}
 	}
 	// sampled scripts for every method (D only where the transport does not replay the request itself)
@@ -549,7 +553,7 @@ func buildHTTPCases(r *vrun.Run) []httpCase {
 			}
 			steps = append(steps, mkStep(letter, rng))
 		}
-		p := mkPolicy(rng, 8)
+		p := mkPolicy(rng)
 		if rng.IntN(12) == 0 { // disabled policies: the library's default (RetryMax 0) and a stray RetryMax
 			p.Enabled = false
 			p.Kind = "constant"
